@@ -169,7 +169,14 @@ impl Remover {
                     Some(current + (end_cursor - start_cursor).max(0) + 1),
                 ));
                 if start_cursor < end_cursor {
-                    acc.extend(child_markers[start_cursor..end_cursor].to_owned());
+                    // Pair indices of the children are relative to `child_markers`: re-base them.
+                    acc.extend(child_markers[start_cursor..end_cursor].iter().map(|(r, p)| {
+                        (
+                            r.clone(),
+                            p.filter(|p| (start_cursor..end_cursor).contains(p))
+                                .map(|p| p - start_cursor + current + 1),
+                        )
+                    }));
                 }
                 acc.push((end_marker, Some(current)));
             } else {
